@@ -86,7 +86,7 @@ def verify_function(qual, timeout_ms=60000, canary=True, shard=None):
         # iterative deepening: most obligations need 3 rounds; only a refutation at the
         # contract's full fuel counts as `failed`
         for fuel in range(3, max(3, ct.fuel) + 1):
-            st, info = L.check_valid(ob.hyps, ob.goal, timeout_ms=timeout_ms, fuel=fuel, extra_axioms=ct.axioms)
+            st, info = L.check_valid(ob.hyps, ob.goal, timeout_ms=timeout_ms, fuel=fuel, extra_axioms=ct.axioms, exclude=getattr(ct, "exclude", ()))
             if st == "proved":
                 break
         info["fuel"] = fuel
